@@ -99,7 +99,7 @@ PROPS["C01"] = dict(
     level_text="TLC enumerates every tie vector with N <= 9 (thorough 12), every n1 and every allocation of tied values to the two samples, computing 2U and the exact cumulative tail counts over C(N,n1) (cross-checked against literal subset enumeration for N <= 7); the binder materialises each allocation under strictly increasing value maps and shuffles, calls MannWhitneyUTest for the three alternatives and compares N1, N2, U exactly and P to the exact rational",
     level_note=_mw_note,
     stages=[dict(name="gen", kind="gen", module="MannWhitney.tla", cfg="MW_gen.cfg",
-                 consts=dict(MaxN={"quick": 9, "thorough": 12}, CrossN={"quick": 7, "thorough": 8}, Configs="ConfigsDefault", StartT="StartEmpty")),
+                 consts=dict(MaxN={"quick": 9, "thorough": 12}, CrossN={"quick": 7, "thorough": 8}, Configs="ConfigsDefault", StartT="StartEmpty"), timeout={"quick": 1500, "thorough": 7000}),
             dict(name="mid", kind="gen", module="MannWhitney.tla", cfg="MW_gen.cfg",
                  consts=dict(MaxN=0, CrossN=0, Configs="ConfigsWide", StartT={"quick": "MidPoolsQuick", "thorough": "MidPoolsThorough"}), timeout={"quick": 900, "thorough": 5000}),
             dict(name="large", kind="gen", family="mwlarge", module="MWLarge.tla", cfg="MWLarge.cfg", workers=6,
@@ -114,7 +114,7 @@ PROPS["C02"] = dict(
     level_text="TLC enumerates every (N1,N2,T) with N1+N2 <= 9 (thorough 13) and emits the exact count vector (three formulations cross-checked, mirror and reversal laws checked by TLC); the binder evaluates UDist.PMF and CDF at every half-integer from -1 to N1*N2+1 and CDF at off-grid points, for T as given and T=nil when untied, against the exact rationals, plus Bounds, Step, monotonicity",
     level_note=_mw_note,
     stages=[dict(name="gen", kind="gen", module="MannWhitney.tla", cfg="MW_gen.cfg",
-                 consts=dict(MaxN={"quick": 9, "thorough": 13}, CrossN={"quick": 7, "thorough": 8}, Configs="ConfigsDefault", StartT="StartEmpty")),
+                 consts=dict(MaxN={"quick": 9, "thorough": 13}, CrossN={"quick": 7, "thorough": 8}, Configs="ConfigsDefault", StartT="StartEmpty"), timeout={"quick": 1500, "thorough": 7000}),
             dict(name="mid", kind="gen", module="MannWhitney.tla", cfg="MW_gen.cfg",
                  consts=dict(MaxN=0, CrossN=0, Configs="ConfigsWide", StartT={"quick": "MidPoolsQuick", "thorough": "MidPoolsThorough"}), timeout={"quick": 900, "thorough": 5000}),
             dict(name="large", kind="gen", family="mwlarge", module="MWLarge.tla", cfg="MWLarge.cfg", workers=6,
